@@ -21,6 +21,22 @@ macro_rules! harnesses {
     };
 }
 
+/// Straight-line repetition instead of a loop with a constant trip count. Kani has ONE unwinding
+/// bound per harness; every level of it is paid for by all loops and recursions of the real code
+/// (notably the mutually recursive drop glue behind `Box<dyn Error>`), so the harness's own
+/// bookkeeping must not force a large bound.
+#[macro_export]
+macro_rules! unroll {
+    ($j:ident in 0..2 => $b:block) => { $crate::unroll!(@ $j $b 0 1) };
+    ($j:ident in 0..3 => $b:block) => { $crate::unroll!(@ $j $b 0 1 2) };
+    ($j:ident in 0..4 => $b:block) => { $crate::unroll!(@ $j $b 0 1 2 3) };
+    ($j:ident in 0..6 => $b:block) => { $crate::unroll!(@ $j $b 0 1 2 3 4 5) };
+    ($j:ident in 0..7 => $b:block) => { $crate::unroll!(@ $j $b 0 1 2 3 4 5 6) };
+    ($j:ident in 0..8 => $b:block) => { $crate::unroll!(@ $j $b 0 1 2 3 4 5 6 7) };
+    ($j:ident in 0..10 => $b:block) => { $crate::unroll!(@ $j $b 0 1 2 3 4 5 6 7 8 9) };
+    (@ $j:ident $b:block $($i:literal)*) => { $( { let $j: usize = $i; $b } )* };
+}
+
 pub mod c35;
 pub mod c01;
 pub mod c05;
@@ -44,9 +60,12 @@ pub mod c32;
 pub mod c33;
 pub mod c34;
 pub mod probe;
+/// words of the built-in OS, regenerated from /repo/src/os.asm by `replay --gen-os` on every run
+pub mod gen_os { include!("gen/os_image.rs"); }
+pub mod pstep;
 
 pub fn tables() -> Vec<&'static [(&'static str, fn())]> {
-    vec![c01::TABLE, c05::TABLE, c07::TABLE, c10::TABLE, c10::k::TABLE, c25::TABLE, c26::TABLE, c35::TABLE, c06::TABLE, c15::TABLE, c08::TABLE, c08::ir::TABLE, c09::TABLE, c13::TABLE, c14::TABLE, c16::TABLE, c27::TABLE, c28::TABLE, c32::TABLE, c32::mm::TABLE, c33::TABLE, c34::TABLE, probe::TABLE]
+    vec![c01::TABLE, c05::TABLE, c07::TABLE, c10::TABLE, c10::k::TABLE, c25::TABLE, c26::TABLE, c35::TABLE, c06::TABLE, c15::TABLE, c08::TABLE, c08::ir::TABLE, c09::TABLE, c13::TABLE, c14::TABLE, c16::TABLE, c27::TABLE, c28::TABLE, c32::TABLE, c32::mm::TABLE, c33::TABLE, c34::TABLE, probe::TABLE, pstep::TABLE]
 }
 
 pub fn lookup(name: &str) -> Option<fn()> {
